@@ -7,6 +7,7 @@
 From Coq Require Import Reals List.
 From Coquelicot Require Import Coquelicot.
 From LF Require Import Base.Opcode Base.Num Eval.Deck Eval.EvalState Eval.Deriv Eval.DerivSem.
+From LF Require Import Gen.DerivKernels_gen Gen.ArrayKernels_gen Eval.KernelsAgree.
 Local Open Scope R_scope.
 
 (* the chain rule, for every opcode: where the opcode is differentiable ([smooth_at]) and,
@@ -84,6 +85,23 @@ Proof. exact @minmax_branch. Qed.
 Theorem C06_inside_nonzero : forall v : R, v <> 0 -> (is_inside v <-> ~ 0 < v).
 Proof. exact inside_nonzero. Qed.
 
+(* THE KERNELS ARE THE SOURCE'S.  [dkern_gen] / [vkern_gen] are regenerated on every run from
+   DerivArrayEvaluator::operator() (eval_deriv_array.cpp) and ArrayEvaluator::operator() (eval_array.cpp) by
+   translate/gen_kernels.py, one match arm per C++ case; they coincide with the model's kernels for every opcode
+   (and every number type), so the chain-rule theorem is about the formulas the code states today *)
+Theorem C06_kernels_from_source :
+  forall (num : Type) (O : ops num) cv op av bv ov (ad bd : @dvec num),
+    dkern_gen O cv op av bv ov ad bd = dkern O cv op av bv ov ad bd.
+Proof. exact @dkern_gen_eq. Qed.
+Theorem C06_kernel_correct_source :
+  forall (op : opcode) (a b : R -> R) (t ad bd : R),
+    is_derive a t ad -> is_derive b t bd ->
+    smooth_at op (a t) (b t) ->
+    (const_b op -> locally t (fun s => b s = b t)) ->
+    is_derive (fun s => vkern_gen op (a s) (b s)) t
+      (pr1 (dkern_gen RD false op (a t) (b t) (vkern_gen op (a t) (b t)) (ad, ad, ad) (bd, bd, bd))).
+Proof. exact kernel_correct_source. Qed.
+
 Print Assumptions C06_kernel_correct.
 Print Assumptions C06_kernel_componentwise.
 Print Assumptions C06_deriv_correct.
@@ -92,3 +110,5 @@ Print Assumptions C06_jacobian_correct.
 Print Assumptions C06_const_var.
 Print Assumptions C06_minmax_branch.
 Print Assumptions C06_inside_nonzero.
+Print Assumptions C06_kernels_from_source.
+Print Assumptions C06_kernel_correct_source.
